@@ -37,7 +37,7 @@ fn class(t: &HashSet<D>, root: D, a: &HashSet<D>, absent: bool) -> &'static str 
 pub fn run(ctx: &Ctx) -> i32 {
     let th = ctx.tier.thorough();
     let w = if th { 8 } else { 7 };
-    let mut trees = families::plain(w);
+    let mut trees = families::plain(w); trees.extend(families::nsn());
     let nplain = trees.len();
     trees.extend(families::marked(w));
     // sources that already contain obscured elements: every single-target obscuration (three actions) of the light trees; their digest sets
@@ -58,8 +58,11 @@ pub fn run(ctx: &Ctx) -> i32 {
         let ds = m.distinct_digests(); let k = ds.len();
         let dset: HashSet<D> = ds.iter().cloned().collect();
         let root = m.digest();
-        let all_subsets: Vec<HashSet<Digest>> = (0u32..(1u32 << k)).map(|mask| bind::dset(&(0..k).filter(|i| mask >> i & 1 == 1).map(|i| ds[i]).collect::<Vec<_>>())).collect();
-        for mask in 1u32..(1u32 << k) {
+        // all subsets up to 10 distinct digests (every tree of the weight-bounded families); singletons, pairs and the full set beyond (the
+        // node-with-node-subject shapes)
+        let ms = families::masks(k);
+        let all_subsets: Vec<HashSet<Digest>> = ms.iter().map(|mask| bind::dset(&(0..k).filter(|i| mask >> i & 1 == 1).map(|i| ds[i]).collect::<Vec<_>>())).collect();
+        for &mask in ms.iter().skip(1) {
             for absent in [false, true] {
                 let mut t: HashSet<D> = (0..k).filter(|i| mask >> i & 1 == 1).map(|i| ds[i]).collect();
                 if absent { t.insert(families::absent_digest()); }
